@@ -117,6 +117,9 @@ real_type g_sd[NLEV];      /* ghost: the safety the tracker of each level's univ
 size_type g_w;             /* ghost witness level */
 static LSA OTV_make_lsa(OrangeTrackView const* self, size_type lev) { __CPROVER_assert(lev <= self->level_, "celer_expect: make_lsa(level) level <= current level"); return lev; }
 static real_type LEVEL_safety(OrangeTrackView const* self, LSA lsa) { __CPROVER_assert(lsa < NLEV, "level index within the state's depth"); return g_sd[lsa]; }
+enum { UT_simple = 0, UT_rect_array = 1 };                                    /* UniverseType */
+int g_utype[NLEV];         /* ghost: the type of the universe entered at each level (any) */
+static int UNIV_type(OrangeTrackView const* self, LSA lsa) { __CPROVER_assert(lsa < NLEV, "level index within the state's depth"); return g_utype[lsa]; }
 static real_type celer_min(real_type a, real_type b) { return fmin(a, b); }   /* celeritas::min<floating> == std::fmin (extracted and checked in c14_msc_*) */
 #define SD_OK(i) (g_sd[i] >= 0)
 #define ALL_SD_OK (SD_OK(0) && SD_OK(1) && SD_OK(2) && SD_OK(3) && SD_OK(4) && SD_OK(5) && SD_OK(6) && SD_OK(7) && SD_OK(8) && SD_OK(9) && SD_OK(10) && SD_OK(11) && SD_OK(12) && SD_OK(13) && SD_OK(14) && SD_OK(15))
@@ -132,6 +135,8 @@ FS_RULES = [
     Rule(r"auto lsa = this->make_lsa\(\);", "LSA lsa = OTV_make_lsa(self, self->level_);", "*", note="level accessor of the deepest level"),
     Rule(r"(?:visit_tracker|TrackerVisitor\{params_\})\(\s*\[&lsa\]\(auto&& t\) \{ return t\.safety\(lsa\.pos\(\), lsa\.vol\(\)\); \},\s*lsa\.universe\(\)\)", "LEVEL_safety(self, lsa)", "*",
          note="tracker visitor computing the level's safety -> stub (any non-negative value per level)"),
+    Rule(r"params_\.universe_types\[lsa\.universe\(\)\]", "UNIV_type(self, lsa)", "*", note="universe type of the level (ghost table: any type)"),
+    Rule(r"UniverseType::(\w+)", r"UT_\1", "*", note="enum class value"),
     Rule(r"auto sd = ", "real_type sd = ", "*", note="auto"),
     Rule(r"celeritas::min\(", "celer_min(", "*", note="celeritas::min"),
     Rule(r"this->find_safety\(\)", "FS_call(self)", "*", note="member call"),
@@ -203,6 +208,7 @@ typedef struct { real_type v[2]; } Intersections;          /* up to two intersec
 enum { SENSE_inside = -1, SENSE_on = 0, SENSE_outside = 1 };      /* SignedSense */
 enum { SS_off = 0, SS_on = 1 };
 typedef struct { Real3 pos; } CalcSafetyDistance;
+bool g_softunit;               /* is_soft_unit_vector(normal) (any answer) */
 bool g_simple;                 /* S::simple_safety() of the visited surface type (either value; the per-type table is checked in c11_flag_table) */
 Real3 g_normal; int g_sense; Intersections g_isect;     /* ghost: what the surface returns (any normal incl. NaN; any sense; distances > 0 or +inf by the QuadraticSolver contracts, C12) */
 static Real3 SURF_calc_normal(Real3 const* pos) { return g_normal; }
@@ -217,6 +223,7 @@ CSD_RULES = [
     Rule(r"Real3 dir = surf\.calc_normal\(this->pos\);", "Real3 dir = SURF_calc_normal(&self->pos);", "*", note="surface call -> ghost"),
     Rule(r"std::isnan\(dir\[0\]\)", "__CPROVER_isnand(dir.v[0])", "*", note="std::isnan"),
     Rule(r"CELER_ASSERT\(is_soft_unit_vector\(dir\)\);", "/* NOT PROMOTED: CELER_ASSERT(is_soft_unit_vector(dir)) -- normalisation accuracy */", "*", note="in-body assert not promoted (numeric)"),
+    Rule(r"is_soft_unit_vector\(dir\)", "g_softunit", "*", note="is_soft_unit_vector(normal): tolerance predicate -> ghost (any answer for a non-NaN normal: stored normals may be unit only to single precision)"),
     Rule(r"auto sense = surf\.calc_sense\(this->pos\);", "int sense = SURF_calc_sense(&self->pos);", "*", note="surface call -> ghost"),
     Rule(r"SignedSense::(\w+)", r"SENSE_\1", "*", note="enum class value (bound)"),
     Rule(r"for \(real_type& d : dir\)\s*\{\s*d \*= -1;\s*\}", "for (int k_ = 0; k_ < 3; ++k_) { dir.v[k_] *= -1; }", "*", note="range-for over the array by reference"),
@@ -226,7 +233,7 @@ CSD_RULES = [
 
 
 def build_calc_safety_distance(ctx):
-    pc = ctx.func(SFN, r"CELER_FUNCTION real_type operator\(\)\(S const& surf\)\s*\{\s*if (?:constexpr )?\(!S::simple_safety\(\)\)", CSD_RULES, name="CalcSafetyDistance::operator()<S>")
+    pc = ctx.func(SFN, r"CELER_FUNCTION real_type operator\(\)\(S const& surf\)(?=\s*\{\s*if (?:constexpr )?\(!S::simple_safety\(\)\))", CSD_RULES, name="CalcSafetyDistance::operator()<S>")
     return (HDR + CSD_MODEL + """
 real_type CSD_call(CalcSafetyDistance const* self)
 __CPROVER_requires(self != 0 && g_isect.v[0] > 0 && g_isect.v[1] > 0 && (g_sense == SENSE_inside || g_sense == SENSE_on || g_sense == SENSE_outside))
@@ -236,10 +243,13 @@ __CPROVER_ensures(!g_simple ==> __CPROVER_return_value == 0)
 __CPROVER_ensures(__CPROVER_return_value >= 0)
 /* a point on the surface has zero safety */
 __CPROVER_ensures((g_simple && !__CPROVER_isnand(g_normal.v[0]) && g_sense == SENSE_on) ==> __CPROVER_return_value == 0)
+/* off the surface the safety IS the nearest crossing along the normal whenever the normal is a number: "no limit" (+inf) is reserved for the degenerate NaN normal
+   (centre of a sphere), it is not returned because a tolerance test on the normal's length fails */
+__CPROVER_ensures((g_simple && !__CPROVER_isnand(g_normal.v[0]) && g_sense != SENSE_on) ==> __CPROVER_return_value == (g_isect.v[1] < g_isect.v[0] ? g_isect.v[1] : g_isect.v[0]))
 {""" + pc.body + """}
 void h_csd(void)
 {
-    CalcSafetyDistance c; unsigned r; g_simple = (r != 0);
+    CalcSafetyDistance c; unsigned r, r2; g_simple = (r != 0); g_softunit = (r2 != 0);
     CSD_call(&c);
     VERIF_CANARY();
 }
